@@ -205,7 +205,9 @@ class _Env:
             self.op, type_promotion=bool(k // 2), constant_promotion=bool(k % 2)
         )
 
-    def raise_somehow(self, how):
+    JUNK_OPERANDS = ["not a number", None, 1j, [1, 2], 2.5, b"x", ...]
+
+    def raise_somehow(self, how, junk=0):
         if how == 1:
             raise _Boom("body raised")
         if how == 2:  # an eager TypeError raised by spox itself inside the block
@@ -218,10 +220,19 @@ class _Env:
                 outside = isinstance(d, self.NI)
             except Exception:  # noqa: BLE001
                 d, outside = None, True
-            if outside:
-                x + "not a number"  # TypeError: unsupported operand (operators not enabled) / spox's eager one
+            bad = self.JUNK_OPERANDS[junk % len(self.JUNK_OPERANDS)]  # the eager errors come from several code paths
+            if junk % 2:
+                x + bad  # through the Python operator
+            elif outside:
+                x + "not a number"  # TypeError: unsupported operand (operators not enabled)
             else:
-                d.add(x, "not a number")  # spox's own eager TypeError
+                d.add(x, bad)  # spox's own eager TypeError
+            raise AssertionError("expected spox to raise")
+        if how == 9:  # another eager error of spox: an operator constructor given operands of different element types
+            import numpy as np
+            from spox import Tensor, argument
+
+            self.op.add(argument(Tensor(np.int64, ())), argument(Tensor(np.float32, ())))
             raise AssertionError("expected spox to raise")
         if how == 3:
             raise KeyError("k")
@@ -288,12 +299,23 @@ def run_real(env: _Env, blocks, init, behave=False):
                 blog.append(rec["binside"][:3])
             for ib in b["inner"]:
                 run_block(ib)
+            if b.get("caught"):
+                # spox raises one of its eager TypeErrors inside the block and the body CATCHES it: the block is
+                # still running, so the entered setting (and the enclosing ones) must still be in force
+                for how_, junk_ in [(2, k_) for k_ in range(len(env.JUNK_OPERANDS))] + [(9, 0)]:
+                    try:
+                        env.raise_somehow(how_, junk_)
+                    except (TypeError, ValueError, AssertionError):
+                        pass
+                    except Exception:  # noqa: BLE001  (InferenceError etc.)
+                        pass
+                rec["inside2"] = env.read()
             if b.get("poke") is not None:
                 # the body switches ITS OWN setting with the public non-scoped setter; on exit the setting from
                 # before the block must be back all the same
                 env.poke(b["which"], b["poke"])
             if b["raises"]:
-                env.raise_somehow(b.get("how", 1))
+                env.raise_somehow(b.get("how", 1), b.get("junk", 0))
 
         try:
             if b.get("form") == "decorator":
@@ -342,6 +364,10 @@ def oracle(records):
         exp[r["which"]] = r["arg"]
         if r["inside"] is not None and -1 not in r["inside"] and -1 not in exp and r["inside"] != exp:
             bad.append((MANAGERS[r["which"]], "not-in-force-inside", r))
+        if r.get("inside2") is not None:
+            for j in range(3):
+                if -1 not in (r["inside2"][j], exp[j]) and r["inside2"][j] != exp[j]:
+                    bad.append((MANAGERS[j], "lost-inside-after-caught-error", dict(r, inside=r["inside2"])))
     return bad
 
 
@@ -506,6 +532,9 @@ def decorate(blocks, rng: random.Random):
         b["how"] = rng.choice([1, 1, 2, 3, 4, 5, 6, 7, 8])
         if b["which"] < 2 and rng.random() < 0.2:
             b["poke"] = rng.randrange(N_ARGS[b["which"]])
+        if rng.random() < 0.3:
+            b["caught"] = True
+        b["junk"] = rng.randrange(7)
         decorate(b["inner"], rng)
 
 
